@@ -1392,8 +1392,8 @@ func (g *c14gen) seeds() {
 				map[string][]byte{c14pid(0xc1).String(): c14bitfieldBytes(1<<50, nil)}, c14NS))
 			g.finish(cs)
 		}
-		{
-			cs := g.newCase("seed-hs-claims-peer-b"+sfx, t.agent, t.n, t.p, t.l, append([]bool{}, agent.have...), false)
+		for _, bfull := range []bool{false, true} {
+			cs := g.newCase(fmt.Sprintf("seed-hs-claims-peer-b-bfull-%v%s", bfull, sfx), t.agent, t.n, t.p, t.l, append([]bool{}, agent.have...), bfull)
 			b := c14makeBlob(cs.Seed, cs.Len, cs.P)
 			g.setHs(cs, c14hsMessage(c14IDB.String(), b.mi.Digest().Hex(), b.mi.InfoHash().String(), c14bitfieldBytes(n, []uint64{3}), nil, c14NS))
 			g.finish(cs)
@@ -1548,7 +1548,8 @@ func c14schedCases(r *hlib.Rng, n int) []*c14sCase {
 	add("seed-sched-foreign-hash-then-honest", foreign(1, 7), honest(1), foreign(1, 7), honest(2), honest(1))
 	add("seed-sched-many-foreign-hashes", foreign(1, 1), foreign(1, 2), foreign(1, 3), foreign(1, 1), foreign(1, 2), foreign(1, 3), honest(1))
 	add("seed-sched-honest-twice", honest(1), honest(1), honest(2))
-	add("seed-sched-unknown-digest-twice", c14sAttempt{1, 0, false, true}, c14sAttempt{1, 0, false, true}, c14sAttempt{1, 5, false, true}, c14sAttempt{1, 5, false, true}, honest(1))
+	// (no attempts with an unknown digest: the origin's torrent archive would call the blob refresher, which this
+	// harness does not provide)
 	add("seed-sched-wrong-bitfield-twice", c14sAttempt{1, 0, true, false}, c14sAttempt{1, 0, true, false}, honest(1))
 	add("seed-sched-foreign-hash-wrong-bitfield", c14sAttempt{1, 4, true, false}, c14sAttempt{1, 4, true, false}, honest(1))
 	for i := 0; i < n; i++ {
@@ -1557,9 +1558,6 @@ func c14schedCases(r *hlib.Rng, n int) []*c14sCase {
 			a := honest(r.Range(1, 2))
 			if r.Chance(45) {
 				a.Hash = r.Range(1, 3)
-			}
-			if r.Chance(12) {
-				a.Known = false
 			}
 			if r.Chance(12) {
 				a.BfOK = false
